@@ -237,6 +237,18 @@ func propC10(c *ctx) error {
 			}
 		}
 	}
+	// ---- every non-continuing suffix after expressions that contain characters of more than one byte (offsets into the
+	// text are counted in characters by the parser and in bytes by Go strings)
+	for _, e := range []string{`"你好"`, "名字", `"é" + a`, "'日本語'", "`é`", `a + "✓✓✓✓✓✓"`, "é", `f("𝄞")`, `"ü" ? 1 : 2`} {
+		for _, sfx := range suffixes {
+			if err := checkParse(e+sfx, false, "trailing text after a complete expression with multi-byte characters accepted"); err != nil {
+				return err
+			}
+		}
+		if err := checkParse(e, true, "well-formed expression with multi-byte characters rejected"); err != nil {
+			return err
+		}
+	}
 	// ---- the object of a range directive is an expression written WITHOUT a block: it too is consumed whole or rejected
 	// (every non-continuing suffix after a complete object, in every header form)
 	for _, sfx := range suffixes {
